@@ -172,6 +172,23 @@ func c22Run(r *runCtx, id string, f []string) {
 				if len(cf) != 4 || cf[0] != "PUTVAL" || cf[2] != "interval=5" || cf[3] != tsec+":"+val {
 					bad = append(bad, fmt.Sprintf("collectd record %q should end in interval=5 %s:%s", cd, tsec, val))
 				}
+				// a record names the label set it belongs to, in full: every key with its value
+				// (separator characters inside them written as '_') is part of the record's name
+				for k, v := range ls.Labels {
+					dot := strings.ReplaceAll(k, ".", "_") + "." + strings.ReplaceAll(v, ".", "_")
+					dash := strings.ReplaceAll(k, "-", "_") + "-" + strings.ReplaceAll(v, "-", "_")
+					if i1 >= 0 && !strings.Contains(st[:i1], dot) {
+						bad = append(bad, fmt.Sprintf("statsd record %q does not name its label %s=%q", st, k, v))
+					}
+					if len(cf) == 4 && !strings.Contains(cf[1], dash) {
+						bad = append(bad, fmt.Sprintf("collectd record %q does not name its label %s=%q", cd, k, v))
+					}
+					for _, x := range valueLines {
+						if !strings.Contains(strings.Split(x, " ")[0], dot) {
+							bad = append(bad, fmt.Sprintf("graphite line %q does not name its label %s=%q", x, k, v))
+						}
+					}
+				}
 			}
 			// varz: name{...} value
 			if !strings.HasSuffix(vz, "} "+val+"\n") || !strings.HasPrefix(vz, sm.name+"{") {
